@@ -28,11 +28,19 @@
 
   Proved at full strength (∀ inputs): mathDiv_is_floor, roundTime_is_aligned_floor, calcUTCOffset_week_start,
     time_strictly_increasing, axis_length, adjacent_diff_is_lod_step, points_aligned, steps_valid_nonincreasing,
-    start_index_covered, lods_contiguous_and_match_points.
-  NOT proved in Lean (checked on the real code by the direct oracle for every generated case, and tied to the model
-  by the correspondence): see the two statements kept as comments at the end (`points_bounded`, `range_end_covered`).
+    start_index_covered, lods_contiguous_and_match_points, points_bounded (len Time ≤ maxPoints + 3),
+    range_end_covered (last point before End, one more step reaches End, the `extend` point, ViewEndX),
+    metric_offset_dvd + lods_with_offset_translated (GetLODs with a metric offset = the offset-0 ranges translated),
+    point_single_level, point_range (point queries: [from, to) aligned, from < to, inside the request / covering it with `extend`).
+  Explicit exclusion, with `decide` witnesses: monthly step combined with a non-zero metric offset (known finding
+    `month-offset-coverage`) — hypothesis `hm` of range_end_covered and lods_with_offset_translated.
+  Helper developments: SH.Lemmas.Timescale, SH.Lemmas.TimescaleEnd (what `endOfLOD` computes, its additivity, the point-limit
+    invariant and the whole-walk invariant of the level loop, table facts `LevOK` decided on the regenerated tables).
+  Also: point_single_level (a point query uses exactly one level). Not in Lean: Go's `time` package (CalOK is assumed, checked on the
+    observed month boundaries by the harness).
 -/
 import SH.Lemmas.Timescale
+import SH.Lemmas.TimescaleEnd
 
 namespace SH.C22
 open SH.Timescale SH.Gen.C22
@@ -284,6 +292,217 @@ def exArgsMonthly : Args :=
 example : (getTimescale cal30 exArgsMonthly).toOption =
     some ⟨[7776000, 10368000, 12960000], [⟨2678400, 3⟩], 1, 1, 3⟩ := by decide
 
+/-! ### the point limit -/
+
+/-- the number of points stays within the limit: at most maxPoints points of the LOD list, plus at most two points on the left
+    and the `extend` point on the right (the out-of-range error is the other outcome: `getTimescale = .error .outOfRange`) -/
+theorem points_bounded (cal : Cal) (hc : CalOK cal) (a : Args) (ts : TS)
+    (h : getTimescale cal a = .ok ts) (hp : isPoint a = false) :
+    (ts.time.length : Int) ≤ maxPoints + 3 := by
+  by_cases hne : ts.time = []
+  · rw [hne]; decide
+  · obtain ⟨lods, hl, hne', _, rfl, _, _⟩ := getTimescale_range cal a ts h hp hne
+    have hb := genLODs_bound cal hc a hp lods hl
+    rw [rangeTS_length cal a lods _ hne']
+    have := leftExtra_le a (startOfLOD cal a.start (step0Of lods) a.utcOffset)
+    split <;> push_cast <;> omega
+
+example : isPoint exArgs = false ∧ ((getTimescale cal30 exArgs).toOption.map (·.time.length)) = some 7 := by decide
+
+/-! ### the end of the requested range -/
+
+/-- "the requested range is covered" at its end, and the view end index: the points up to ViewEndX end with the last point
+    before `End`; one more step of the finest level reaches `End`; with `extend` that next point is appended. -/
+theorem range_end_covered (cal : Cal) (hc : CalOK cal) (a : Args) (ts : TS)
+    (h : getTimescale cal a = .ok ts) (hp : isPoint a = false) (hne : ts.time ≠ [])
+    (hm : isMonth a.step = false ∨ maxOffset a = 0) :
+    ∃ base L, ts.time = base ++ [L] ++ (if a.extend then [stepForward cal L (lastStepOf ts.lods)] else []) ∧
+      L < a.end_ ∧ a.end_ ≤ stepForward cal L (lastStepOf ts.lods) ∧
+      ts.viewEndX = max (base.length + 1) ts.viewStartX := by
+  obtain ⟨lods, hl, hne', hoff, rfl, _, _⟩ := getTimescale_range cal a ts h hp hne
+  have hok := genLODs_ok cal a lods hl
+  have hs0 := step0_ok a lods hok hne'
+  obtain ⟨pts, L, h1, h2, h3, h4⟩ := cover_unshifted cal hc a hp lods hl hne' (by simpa using hoff) hm
+  have hlast : lastStepOf (rangeTS cal a lods (step0Of lods)).lods = lastStepOf lods := by
+    rw [rangeTS_lods]
+    by_cases he : a.extend = true
+    · simp only [he, if_true, lastStepOf_bumpLast, lastStepOf_bumpFirst]
+    · simp only [he, Bool.false_eq_true, if_false, id, lastStepOf_bumpFirst]
+  obtain ⟨hs1, hs2⟩ := rangeTS_shape cal a lods (step0Of lods)
+  cases lods with
+  | nil => exact absurd rfl hne'
+  | cons l ls =>
+    simp only [step0Of] at *
+    obtain ⟨left, hleft⟩ := rangeTS_walk_split cal hc a l ls hs0
+    rw [hleft] at hs1 hs2
+    simp only at hs1 hs2
+    rw [h1] at hs1 hs2
+    rw [h4] at hs1
+    refine ⟨left ++ pts, L, ?_, h2, by rw [hlast]; exact h3, ?_⟩
+    · rw [hs1, hlast]; simp
+    · rw [hs2]; simp; omega
+
+example : isMonth exArgs.step = false ∨ maxOffset exArgs = 0 := by decide
+example : isMonth exArgsMonthly.step = false ∨ maxOffset exArgsMonthly = 0 := by decide
+
+/-! ### GetLODs with a metric time offset: the ranges are the unshifted ones translated by the offset -/
+
+/-- every offset of the query's metrics is a multiple of the coarsest step (the `%` check of GetTimescale) -/
+theorem metric_offset_dvd (cal : Cal) (a : Args) (ts : TS) (h : getTimescale cal a = .ok ts) (hp : isPoint a = false)
+    (hne : ts.time ≠ []) (p : Int × Int) (hpm : p ∈ a.metrics) : step0Of ts.lods ∣ p.2 := by
+  obtain ⟨lods, _, hne', hoff, rfl, _, _⟩ := getTimescale_range cal a ts h hp hne
+  have hs0 : step0Of (rangeTS cal a lods (step0Of lods)).lods = step0Of lods := by
+    rw [rangeTS_lods]
+    cases lods with
+    | nil => exact absurd rfl hne'
+    | cons l ls =>
+      by_cases he : a.extend = true
+      · simp only [he, if_true, bumpFirst]
+        cases ls <;> simp [bumpLast, step0Of]
+      · simp [he, bumpFirst, step0Of]
+  rw [hs0]
+  simp only [offsetsOK, List.all_eq_true] at hoff
+  exact Int.dvd_of_tmod_eq_zero (by simpa using hoff p hpm)
+
+/-- for every offset that is a multiple of the coarsest step (all metric offsets are, see `metric_offset_dvd`) and a non-monthly
+    query (or offset 0), `GetLODs(metric, offset)` returns the ranges of offset 0 moved back by `offset`.
+    The excluded case — monthly step with a non-zero offset — is the known finding `month-offset-coverage`; witness below. -/
+theorem lods_with_offset_translated (cal : Cal) (hc : CalOK cal) (a : Args) (ts : TS)
+    (h : getTimescale cal a = .ok ts) (hp : isPoint a = false) (hne : ts.time ≠ [])
+    (o : Int) (hd : step0Of ts.lods ∣ o) (hm : isMonth a.step = false ∨ o = 0) :
+    getLODs cal a.utcOffset ts o = (getLODs cal a.utcOffset ts 0).map (fun r => (r.1 - o, r.2.1 - o, r.2.2)) := by
+  by_cases ho : o = 0
+  · subst ho; simp
+  · have hnm : isMonth a.step = false := by rcases hm with hm | hm; exact hm; exact absurd hm ho
+    obtain ⟨hok, hlne, ht, _, _⟩ := range_facts cal a ts h hp hne
+    obtain ⟨rest, hr⟩ := expand_head ts.lods hok hlne
+    have hhead : ts.time = tstart cal a (step0Of ts.lods) ::
+        (walk cal rest (stepForward cal (tstart cal a (step0Of ts.lods)) (step0Of ts.lods))).1 := by
+      rw [ht, hr]; simp [walk]
+    have htbl : allSteps (levelsFor a) = allSteps lodLevels := by simp [levelsFor, hnm]
+    rw [htbl] at hok
+    have hsteps : ∀ l ∈ ts.lods, isMonth l.step = false := fun l hl => (levels_not_month _ (hok.1 l hl).1).1
+    obtain ⟨l0, hl0, e0⟩ : ∃ l ∈ ts.lods, l.step = step0Of ts.lods := by
+      cases hts : ts.lods with
+      | nil => exact absurd hts hlne
+      | cons l ls => exact ⟨l, by simp, rfl⟩
+    have hs0 := levels_not_month _ (hok.1 l0 hl0).1
+    rw [e0] at hs0
+    obtain ⟨x0, hx0⟩ := backN_is_start cal (step0Of ts.lods) a.utcOffset
+      (leftExtra a (startOfLOD cal a.start (step0Of ts.lods) a.utcOffset)) a.start
+    have hal : Aligned cal a.utcOffset (tstart cal a (step0Of ts.lods)) (step0Of ts.lods) := by
+      unfold tstart; rw [hx0]; exact startOfLOD_aligned cal hc _ _ _ (Or.inr hs0.2)
+    simp only [Aligned, hs0.1, Bool.false_eq_true, if_false] at hal
+    generalize tstart cal a (step0Of ts.lods) = t0 at *
+    have hstart : startOfLOD cal (t0 - o) (step0Of ts.lods) a.utcOffset = t0 + -o := by
+      simp only [startOfLOD, hs0.1, Bool.false_eq_true, if_false]
+      have : t0 - o = t0 + -o := by omega
+      rw [this, roundTime_translate _ _ _ _ hs0.2 ((Int.dvd_neg).mpr hd), roundTime_fixed _ _ _ hs0.2 hal]
+    unfold getLODs
+    rw [hhead]
+    have hob : (o != 0) = true := by simpa using ho
+    simp only [hob, if_true, hstart, lodRanges_translate cal ts.lods hsteps]
+    simp
+    intro r x b _
+    constructor <;> omega
+
+
+example : (getTimescale cal30 { exArgs with metrics := [(5, 120)] }).toOption =
+    some ⟨[0, 60, 120, 180, 240, 300], [⟨60, 6⟩], 1, 2, 5⟩ := by decide
+example : getLODs cal30 0 ⟨[0, 60, 120, 180, 240, 300], [⟨60, 6⟩], 1, 2, 5⟩ 120 = [(-120, 240, 60)] ∧
+    getLODs cal30 0 ⟨[0, 60, 120, 180, 240, 300], [⟨60, 6⟩], 1, 2, 5⟩ 0 = [(0, 360, 60)] := by decide
+/-- witness for the exclusion (known finding month-offset-coverage): monthly axis [3M, 4M, 5M] of the 30-day calendar, offset 31 days
+    (a multiple of `_1M`, so it passes the `%` check): GetLODs re-rounds to month 1 and returns [1M, 4M), not [3M - 31d, 6M - 31d) -/
+example : getLODs cal30 0 ⟨[7776000, 10368000, 12960000], [⟨2678400, 3⟩], 1, 1, 3⟩ 2678400 = [(2592000, 10368000, 2678400)] ∧
+    (getLODs cal30 0 ⟨[7776000, 10368000, 12960000], [⟨2678400, 3⟩], 1, 1, 3⟩ 0).map
+      (fun r => (r.1 - 2678400, r.2.1 - 2678400, r.2.2)) = [(5097600, 12873600, 2678400)] := by decide
+
+/-! ### point queries -/
+
+/-- point queries return one [from, to) range on the grid of the (single, coarsest) level: both ends aligned, from < to,
+    and the range lies inside the request (or covers it when `extend` is set) -/
+theorem point_range (cal : Cal) (hc : CalOK cal) (a : Args) (ts : TS) (h : getTimescale cal a = .ok ts)
+    (hp : isPoint a = true) (hne : ts.time ≠ []) :
+    ∃ t t1, ts.time = [t, t1] ∧ t < t1 ∧
+      Aligned cal a.utcOffset t (step0Of ts.lods) ∧ Aligned cal a.utcOffset t1 (step0Of ts.lods) ∧
+      (if a.extend then t ≤ a.start ∧ a.end_ ≤ t1 else a.start ≤ t ∧ t1 ≤ a.end_) := by
+  obtain ⟨lods, hl, hlne, rfl⟩ := getTimescale_point cal a ts h hp hne
+  have hok := genLODs_ok cal a lods hl
+  have hs0 := step0_ok a lods hok hlne
+  have hfw : Fwd cal (step0Of lods) := by
+    rcases hs0 with h | h
+    · exact fwd_month cal hc _ h
+    · by_cases hm : isMonth (step0Of lods) = true
+      · exact fwd_month cal hc _ hm
+      · exact fwd_of_pos cal _ (by simpa using hm) h
+  have f0 := start_facts cal hc (step0Of lods) a.utcOffset a.start hs0
+  have a0 := startOfLOD_aligned cal hc a.start (step0Of lods) a.utcOffset hs0
+  unfold pointTS at hne ⊢
+  generalize startOfLOD cal a.start (step0Of lods) a.utcOffset = t0 at *
+  dsimp only at hne ⊢
+  by_cases he : a.extend = true
+  · -- extend: from = startOfLOD(Start), to = first grid point ≥ End
+    simp only [he, Bool.not_true, Bool.and_false, Bool.false_eq_true, if_false, if_true] at hne ⊢
+    obtain ⟨k, hk, hle⟩ := endOfLOD_spec cal (step0Of lods) hfw t0 a.end_
+    rw [hk] at hne ⊢
+    have hge := segEnd_ge cal (step0Of lods) hfw k t0
+    split at hne
+    · exact absurd rfl hne
+    · rename_i hneq
+      simp only [beq_iff_eq] at hneq
+      simp only [beq_iff_eq, hneq, if_false]
+      refine ⟨t0, segEnd cal (step0Of lods) k t0, rfl, ?_, a0, aligned_segEnd cal hc _ _ k t0 a0, f0.1, hle.1⟩
+      have : (0 : Int) ≤ k := Int.natCast_nonneg k
+      omega
+  · have he' : a.extend = false := by simpa using he
+    simp only [he', Bool.not_false, Bool.and_true, Bool.false_eq_true, if_false] at hne ⊢
+    -- no extend: from = first grid point ≥ Start, to = last grid point ≤ End
+    have key : ∀ t, a.start ≤ t → Aligned cal a.utcOffset t (step0Of lods) →
+        (if (t == (endOfLOD cal t (step0Of lods) a.end_ true).1) = true then TS.empty
+          else ({ time := [t, (endOfLOD cal t (step0Of lods) a.end_ true).1], lods := lods, startX := 0, viewStartX := 0, viewEndX := 1 } : TS)).time ≠ [] →
+        ∃ t' t1, (if (t == (endOfLOD cal t (step0Of lods) a.end_ true).1) = true then TS.empty
+          else ({ time := [t, (endOfLOD cal t (step0Of lods) a.end_ true).1], lods := lods, startX := 0, viewStartX := 0, viewEndX := 1 } : TS)).time = [t', t1] ∧
+          t' < t1 ∧ Aligned cal a.utcOffset t' (step0Of (if (t == (endOfLOD cal t (step0Of lods) a.end_ true).1) = true then TS.empty
+          else ({ time := [t, (endOfLOD cal t (step0Of lods) a.end_ true).1], lods := lods, startX := 0, viewStartX := 0, viewEndX := 1 } : TS)).lods) ∧
+          Aligned cal a.utcOffset t1 (step0Of (if (t == (endOfLOD cal t (step0Of lods) a.end_ true).1) = true then TS.empty
+          else ({ time := [t, (endOfLOD cal t (step0Of lods) a.end_ true).1], lods := lods, startX := 0, viewStartX := 0, viewEndX := 1 } : TS)).lods) ∧
+          a.start ≤ t' ∧ t1 ≤ a.end_ := by
+      intro t hst hat hne2
+      split at hne2
+      · exact absurd rfl hne2
+      · rename_i hneq
+        simp only [beq_iff_eq] at hneq
+        simp only [beq_iff_eq, hneq, if_false]
+        by_cases hte : t ≤ a.end_
+        · obtain ⟨k, hk, h1, h2⟩ := endLoop_le_spec cal (step0Of lods) a.end_ hfw (a.end_ - t).toNat t 0 (Nat.le_refl _) hte
+          have hk' : (endOfLOD cal t (step0Of lods) a.end_ true).1 = segEnd cal (step0Of lods) k t := hk
+          rw [hk'] at hneq ⊢
+          exact ⟨t, _, rfl, by omega, hat, aligned_segEnd cal hc _ _ k t hat, hst, h2⟩
+        · exfalso
+          apply hneq
+          have : (a.end_ - t).toNat = 0 := by omega
+          simp [endOfLOD, this, endLoop]
+    by_cases hlt : t0 < a.start
+    · simp only [hlt, decide_true, if_true] at hne ⊢
+      exact key _ (by omega) (aligned_step cal hc _ _ _ a0) hne
+    · simp only [hlt, decide_false, Bool.false_eq_true, if_false] at hne ⊢
+      exact key _ (by omega) a0 hne
+
+/-- a point query is served from exactly one level of detail -/
+theorem point_single_level (cal : Cal) (hc : CalOK cal) (a : Args) (ts : TS) (h : getTimescale cal a = .ok ts)
+    (hp : isPoint a = true) (hne : ts.time ≠ []) : ts.lods.length = 1 := by
+  obtain ⟨lods, hl, hlne, rfl⟩ := getTimescale_point cal a ts h hp hne
+  rw [pointTS_time_lods cal a lods _ hne]
+  have := genLODs_point_single cal hc a hp lods hl
+  cases lods with
+  | nil => exact absurd rfl hlne
+  | cons l ls => simp at this ⊢; exact this
+
+example : (getTimescale cal30 { exArgs with mode := .point, extend := false }).toOption =
+    some ⟨[120, 240], [⟨60, 4⟩], 0, 0, 1⟩ := by decide
+example : (getTimescale cal30 { exArgs with mode := .point, extend := true }).toOption =
+    some ⟨[60, 300], [⟨60, 4⟩], 0, 0, 1⟩ := by decide
+
 /-! ### the two findings on the code as it is, as `decide` witnesses on the model
 
   (1) fixes/C22-month-start.diff. Before the fix StepForward is `AddDate(0,1,0)`: it adds a month to the previous point instead of
@@ -317,29 +536,10 @@ example : ∀ x ∈ [5184000, 7779600, 10368000, 12960000], calGapFixed.som x = 
 
 /-! (2) known finding `month-offset-coverage` (no small fix): monthly step with a metric offset of 31 days. The months are counted
   on [Start - 31d, End - 31d) — four of them — but laid out from the unshifted start, so the last point (month 6) lies
-  beyond End (in month 5) although `extend` is off: `range_end_covered` below is false without its hypothesis `hm`. -/
+  beyond End (in month 5) although `extend` is off: `range_end_covered` above is false without its hypothesis `hm`. -/
 example : (getTimescale cal30 { exArgsMonthly with end_ := 2592000 * 5 + 100000, metrics := [(1, 2678400)] }).toOption.map (·.time) =
     some [7776000, 10368000, 12960000, 15552000] := by decide
 example : (getTimescale cal30 { exArgsMonthly with end_ := 2592000 * 5 + 100000, metrics := [] }).toOption.map (·.time) =
     some [7776000, 10368000, 12960000] := by decide
-
-/-! ### kept as statements, not proved in Lean
-
-  theorem points_bounded (cal) (hc : CalOK cal) (a ts) (h : getTimescale cal a = .ok ts) (hp : isPoint a = false) :
-      (ts.time.length : Int) ≤ maxPoints + 3
-    -- needs: additivity of `endOfLOD` (walking to `edge` and on to `end` = walking to `end`) and the cross-level
-    -- invariant `resLen + (endOfLOD start lod.step end).2 ≤ maxPoints`. Oracle signatures `too-many-points`,
-    -- `too-many-points-in-range` check it on the real code.
-
-  theorem range_end_covered (cal) (hc : CalOK cal) (a ts) (h : getTimescale cal a = .ok ts) (hp : isPoint a = false)
-      (hm : isMonth a.step = false ∨ maxOffset a = 0) :
-      ∃ last, ts.time.getLast? = some last ∧
-        (if a.extend then a.end_ ≤ last else last < a.end_ ∧ a.end_ ≤ stepForward cal last (lastStepOf ts.lods))
-    -- needs the whole-walk invariant of `outer` (the loop variable `start` is the point reached by walking all emitted
-    -- LODs from the rounded start) and that the last level always runs to `end` (its finest step 1 ≤ minStep).
-    -- False for monthly steps with a non-zero metric offset (known finding `month-offset-*`): the months of the
-    -- range shifted by `maxOffset` seconds are counted, but laid out from the unshifted start.
-    -- Oracle signatures `end-not-covered`, `end-overshoot`, `start-not-covered` check it on the real code.
--/
 
 end SH.C22
